@@ -143,8 +143,24 @@ def isolated(var, body):
     return view(fr)
 
 
+_MIN_BODY = {0x04: 6 + 0, 0x05: 6, 0x06: 10, 0x07: 10, 0x08: 10, 0x09: 6, 0x0A: 6, 0x0B: 10, 0x03: 14, 0x02: 14, 0x0E: 14}
+_LEN_PREFIXED_METADATA = {0x04: 6, 0x05: 6, 0x06: 10, 0x07: 10, 0x0A: 6}
+
+
 def certainly_undecodable(it, body):
-    return it['kind'] in ('short', 'unknown') or len(body) < 6
+    """No reading of the wire format makes a frame of this body: shorter than a header, unknown type, a fixed-size field of
+    the type cut short, or the METADATA flag set with the 3-byte metadata length field itself incomplete."""
+    if it['kind'] in ('short', 'unknown') or len(body) < 6:
+        return True
+    code = body[4] >> 2
+    flags = ((body[4] & 0x03) << 8) | body[5]
+    if flags & 0x200:
+        return False  # IGNORE: the receiver may skip it, nothing is required to fail
+    if code in _MIN_BODY and len(body) < _MIN_BODY[code]:
+        return True
+    if (flags & 0x100) and code in _LEN_PREFIXED_METADATA and len(body) < _LEN_PREFIXED_METADATA[code] + 3:
+        return True
+    return False
 
 
 async def via_transport(loop, var, chunks, rbuf, cap, eof='after'):
